@@ -225,7 +225,8 @@ def pushUcn (n : Nat) (k : LexRes) : LexRes :=
   if n < 0xD800 ∨ (0xE000 ≤ n ∧ n < 0x110000) then pushC (Char.ofNat n) k else none
 
 /-- what state `norm` does with the character `c` (followed by `r`), given the results of
-lexing `r` in state `norm` and in state `esc` -/
+lexing `r` in state `norm` and in state `esc` (used to STATE the unfolding lemma only: `lex` itself
+branches first, so that only one of the two continuations is ever computed) -/
 def onNorm (c : Char) (r : Str) (recNorm recEsc : LexRes) : LexRes :=
   if c = '"' then some ([], r)
   else if isNewline c then none
@@ -237,7 +238,11 @@ text after the closing quote; `none` when the literal is not terminated on the l
 an escape sequence that is not one of the language. -/
 def lex : St → Str → LexRes
   | _, [] => none
-  | .norm, c :: r => onNorm c r (lex .norm r) (lex .esc r)
+  | .norm, c :: r =>
+    if c = '"' then some ([], r)
+    else if isNewline c then none
+    else if c = '\\' then lex .esc r
+    else pushC c (lex .norm r)
   | .esc, e :: r =>
     match simpleEsc e with
     | some v => pushC v (lex .norm r)
@@ -249,11 +254,17 @@ def lex : St → Str → LexRes
       else none
   | .oct k acc, c :: r =>
     if k < 3 ∧ isOct c then lex (.oct (k + 1) (acc * 8 + digitVal c)) r
-    else pushUnit acc (onNorm c r (lex .norm r) (lex .esc r))
+    else pushUnit acc
+      (if c = '"' then some ([], r) else if isNewline c then none
+       else if c = '\\' then lex .esc r else pushC c (lex .norm r))
   | .hex k acc, c :: r =>
     match hexVal c with
     | some h => lex (.hex (k + 1) (acc * 16 + h)) r
-    | none => if k = 0 then none else pushUnit acc (onNorm c r (lex .norm r) (lex .esc r))
+    | none =>
+      if k = 0 then none
+      else pushUnit acc
+        (if c = '"' then some ([], r) else if isNewline c then none
+         else if c = '\\' then lex .esc r else pushC c (lex .norm r))
   | .ucn k acc, c :: r =>
     match hexVal c with
     | some h =>
@@ -308,7 +319,11 @@ def cppStringTriL (t : Str) : Option Str := cppStringL (detri t)
 
 def spanDigits : Str → Str × Str
   | [] => ([], [])
-  | c :: r => if isDigit c then ((c :: (spanDigits r).1), (spanDigits r).2) else ([], c :: r)
+  | c :: r =>
+    if isDigit c then
+      match spanDigits r with
+      | (a, b) => (c :: a, b)
+    else ([], c :: r)
 
 /-- value of a run of digits in base `b` (`none` if a character is not a digit of that base) -/
 def baseVal (b : Nat) : Str → Nat → Option Nat
@@ -353,7 +368,11 @@ def isSuffixChar (c : Char) : Bool := lower c = 'u' || lower c = 'l'
 
 def spanHex : Str → Str × Str
   | [] => ([], [])
-  | c :: r => if (hexVal c).isSome then ((c :: (spanHex r).1), (spanHex r).2) else ([], c :: r)
+  | c :: r =>
+    if (hexVal c).isSome then
+      match spanHex r with
+      | (a, b) => (c :: a, b)
+    else ([], c :: r)
 
 /-- decimal literal: digits then suffix -/
 def decLit (cs : Str) : Option (Nat × CTy) :=
@@ -445,12 +464,15 @@ def ppRest : Char → Str → Str × Str
   | prev, c :: r =>
     if isIdentChar c || c = '.' ||
        ((c = '+' || c = '-') && (prev = 'e' || prev = 'E' || prev = 'p' || prev = 'P')) then
-      ((c :: (ppRest c r).1), (ppRest c r).2)
+      match ppRest c r with
+      | (a, b) => (c :: a, b)
     else ([], c :: r)
 
 /-- an optional `-`, then one pp-number or identifier-like token; (token text, rest) -/
 def numToken : Str → Str × Str
-  | '-' :: r => ('-' :: (ppRest '-' r).1, (ppRest '-' r).2)
+  | '-' :: r =>
+    match ppRest '-' r with
+    | (a, b) => ('-' :: a, b)
   | t => ppRest ' ' t
 
 /-! ## `String` wrappers -/
